@@ -1,21 +1,23 @@
 import itertools, os, re, sys
-from vf import Check, Stream, log
+from vf import Check, Stream, log, first_diff
 
 NV = 3
 KINDS = ['array', 'list', 'map', 'multimap', 'hashmap', 'hashset', 'poollist', 'poolmap']
 HAS_KEY = {'map', 'multimap', 'hashmap', 'hashset', 'poolmap'}
 HAS_VAL = {'array', 'list', 'map', 'multimap', 'hashmap', 'poollist', 'poolmap'}
+NEED_VAL = HAS_VAL - {'poolmap'}
 COPYABLE = {'array', 'list', 'map', 'multimap', 'hashmap', 'hashset'}
 UNIQUE = {'map', 'hashmap', 'hashset', 'poolmap'}
 CAN_ADDALL = {'array', 'list', 'map', 'hashset'}
 CAN_SWAP = {'array', 'list', 'hashmap', 'hashset', 'poollist', 'poolmap'}
 
 
+# ------------------------------------------------------------------------------------------
+# generators.  A tiny picture of the variables (kind, upper bound of the size) lets the
+# generated ops mostly hit their preconditions.  Nothing expected is computed here: expected
+# observations come from the extracted spec / model.
+# ------------------------------------------------------------------------------------------
 class Pic:
-    """A tiny picture of the variables (kind, size) so that generated ops mostly hit their
-    preconditions.  Sizes of keyed containers are upper bounds only; nothing expected is ever
-    computed here (expected observations come from the extracted spec/model)."""
-
     def __init__(self):
         self.kind = [None] * NV
         self.size = [0] * NV
@@ -31,34 +33,34 @@ def small(rng):
     return rng.randrange(0, 7)
 
 
-def gen_arg_val(rng, pic, x, alias):
-    """value argument for an op on variable x"""
+def ref(rng, pic, x, alias, want_key):
+    """an element reference (own container preferred), or None"""
+    if not alias or rng.random() >= alias:
+        return None
+    pool = HAS_KEY if want_key else HAS_VAL
+    ys = [y for y in pic.live() if pic.kind[y] in pool and pic.size[y] > 0]
+    if x in ys and rng.random() < 0.8:
+        ys = [x]
+    if not ys:
+        return None
+    y = rng.choice(ys)
+    n = pic.size[y]
+    return '%s%d.%d' % ('k' if want_key else 'v', y, rng.choice([0, n - 1, rng.randrange(n)]))
+
+
+def ins_op(rng, pic, x, alias, p=None):
     k = pic.kind[x]
-    if alias and rng.random() < alias:
-        ys = [y for y in pic.live() if pic.kind[y] in HAS_VAL and pic.size[y] > 0]
-        if x in ys and rng.random() < 0.8:
-            ys = [x]
-        if ys:
-            y = rng.choice(ys)
-            n = pic.size[y]
-            return 'v%d.%d' % (y, rng.choice([0, n - 1, rng.randrange(n)]))
-    return str(small(rng))
-
-
-def gen_arg_key(rng, pic, x, alias):
-    if alias and rng.random() < alias:
-        ys = [y for y in pic.live() if pic.kind[y] in HAS_KEY and pic.size[y] > 0]
-        if x in ys and rng.random() < 0.8:
-            ys = [x]
-        if ys:
-            y = rng.choice(ys)
-            n = pic.size[y]
-            return 'k%d.%d' % (y, rng.choice([0, n - 1, rng.randrange(n)]))
-    return str(small(rng))
+    n = pic.size[x]
+    if p is None:
+        p = rng.choice(['f', 'b', 'b', str(rng.randrange(n + 1))])
+    ka = (ref(rng, pic, x, alias, True) or str(small(rng))) if k in HAS_KEY else '-'
+    va = (ref(rng, pic, x, alias, False) or str(small(rng))) if k in NEED_VAL else '-'
+    pic.size[x] += 1
+    return 'ins %d %s %s %s' % (x, p, ka, va)
 
 
 def gen_case(rng, kind, nops, alias=0.25, valid=True, mixed=False):
-    """history over NV variables of one kind (or mixed kinds)"""
+    """history over NV variables of one kind (or two kinds)"""
     pic = Pic()
     ops = []
     kinds = [kind] if not mixed else [kind, rng.choice(KINDS)]
@@ -78,29 +80,27 @@ def gen_case(rng, kind, nops, alias=0.25, valid=True, mixed=False):
             continue
         x = rng.choice(lv) if valid or rng.random() < 0.9 else rng.randrange(NV + 1)
         if x >= NV or not pic.kind[x]:
-            ops.append(rng.choice(['clear %d' % x, 'del %d' % x, 'remat %d 0' % x, 'ins %d b 1 1' % x]))
+            ops.append(rng.choice(['clear %d' % x, 'del %d' % x, 'remat %d 0' % x, 'ins %d b 1 1' % x,
+                                   'asg %d %d' % (x, rng.randrange(NV)), 'copy %d %d' % (rng.randrange(NV), x)]))
             continue
         k = pic.kind[x]
         n = pic.size[x]
         same = [y for y in lv if pic.kind[y] == k]
         y = rng.choice(same) if rng.random() < 0.6 else x
-        if not valid and rng.random() < 0.1:
+        if not valid and rng.random() < 0.15:
             y = rng.randrange(NV + 1)
         if r < 0.45:
-            p = rng.choice(['f', 'b', 'b', str(rng.randrange(n + 1))])
-            ka = gen_arg_key(rng, pic, x, alias) if k in HAS_KEY else '-'
-            va = gen_arg_val(rng, pic, x, alias) if (k in HAS_VAL and k != 'poolmap') else '-'
-            ops.append('ins %d %s %s %s' % (x, p, ka, va))
-            pic.size[x] += 1
+            ops.append(ins_op(rng, pic, x, alias))
         elif r < 0.57:
             i = rng.choice([0, max(n - 1, 0), rng.randrange(max(n, 1))]) if valid else rng.randrange(n + 2)
             ops.append('remat %d %d' % (x, i))
             if i < n:
                 pic.size[x] -= 1
         elif r < 0.63:
-            a = gen_arg_key(rng, pic, x, alias) if k in HAS_KEY else gen_arg_val(rng, pic, x, alias)
+            a = (ref(rng, pic, x, alias, True) if k in HAS_KEY else ref(rng, pic, x, alias, False)) or str(small(rng))
+            if not valid and rng.random() < 0.2:
+                a = rng.choice(['k%d.%d' % (rng.randrange(NV), rng.randrange(5)), 'v%d.%d' % (rng.randrange(NV), rng.randrange(5))])
             ops.append('remkey %d %s' % (x, a))
-            # size stays an upper bound
         elif r < 0.66:
             ops.append('clear %d' % x)
             pic.size[x] = 0
@@ -124,17 +124,15 @@ def gen_case(rng, kind, nops, alias=0.25, valid=True, mixed=False):
         elif r < 0.88:
             p = rng.choice(['f', 'b', str(rng.randrange(n + 1))])
             ops.append('addall %d %s %d' % (x, p, y))
-            if k in CAN_ADDALL and y < NV and pic.kind[y] == k and k not in ('map', 'hashset'):
+            if k in CAN_ADDALL and y < NV and pic.kind[y] == k:
                 pic.size[x] += pic.size[y]
-            elif k in ('map', 'hashset') and y < NV and pic.kind[y] == k:
-                pic.size[x] += pic.size[y]      # upper bound
         elif r < 0.90:
             ops.append('remall %d %d' % (x, y))
         elif r < 0.94 and k == 'array':
             ops.append('reserve %d %d' % (x, rng.choice([0, n, n + 1, n + 4, rng.randrange(0, 20)])))
         elif r < 0.98 and k == 'array':
             m = rng.choice([0, n, n + 1, max(n - 1, 0), rng.randrange(0, 14)])
-            ops.append('resize %d %d %s' % (x, m, gen_arg_val(rng, pic, x, alias)))
+            ops.append('resize %d %d %s' % (x, m, ref(rng, pic, x, alias, False) or str(small(rng))))
             pic.size[x] = m
         else:
             ops.append('del %d' % x)
@@ -143,29 +141,226 @@ def gen_case(rng, kind, nops, alias=0.25, valid=True, mixed=False):
     return ops
 
 
+def fill(kind, x, n, base=1):
+    """n distinct elements into variable x"""
+    out = []
+    for i in range(n):
+        ka = str(base + i) if kind in HAS_KEY else '-'
+        va = str(10 * (base + i)) if kind in NEED_VAL else '-'
+        out.append('ins %d b %s %s' % (x, ka, va))
+    return out
+
+
+def boundary_cases(thorough):
+    """Array: append(a[i]) / resize(m, a[i]) / append(a) at and away from the capacity boundary
+    (capacities are n|3), with and without a reserve() in front; remove at every index."""
+    cases = []
+    top = 13 if thorough else 9
+    for n in range(0, top):
+        idxs = sorted({0, n // 2, n - 1}) if n else []
+        for i in idxs:
+            cases.append(['new 0 array'] + fill('array', 0, n) + ['ins 0 b - v0.%d' % i, 'ins 0 b - v0.%d' % i])
+            cases.append(['new 0 array'] + fill('array', 0, n) + ['reserve 0 %d' % (n + 1), 'ins 0 b - v0.%d' % i])
+            for m in sorted({0, n - 1, n, n + 1, (n | 3), (n | 3) + 1, n + 6}):
+                if m >= 0:
+                    cases.append(['new 0 array'] + fill('array', 0, n) + ['resize 0 %d v0.%d' % (m, i)])
+            cases.append(['new 0 array'] + fill('array', 0, n) + ['reserve 0 %d' % (n + 5), 'resize 0 %d v0.%d' % (n + 3, i)])
+            cases.append(['new 0 array'] + fill('array', 0, n) + ['remat 0 %d' % i, 'ins 0 b - v0.0' if n > 1 else 'ins 0 b - 1'])
+        cases.append(['new 0 array'] + fill('array', 0, n) + ['addall 0 b 0', 'addall 0 b 0'])
+        cases.append(['new 0 array'] + fill('array', 0, n) + ['asg 0 0', 'copy 1 0', 'asg 1 1', 'asg 0 1', 'swap 0 0', 'swap 0 1'])
+        cases.append(['new 0 array'] + fill('array', 0, n) + ['new 1 array'] + fill('array', 1, 2, 50) +
+                     ['ins 0 b - v1.0', 'addall 0 b 1', 'resize 1 %d v0.0' % (n + 2) if n else 'resize 1 3 7', 'asg 1 0', 'clear 0'])
+    return cases
+
+
+def selfarg_cases(thorough):
+    """every kind: self-assignment, copies of copies, the container as its own argument, own
+    keys / values as arguments, at sizes around the item-block size (4)"""
+    cases = []
+    sizes = range(0, 10) if thorough else [0, 1, 3, 4, 5, 8]
+    for kind in KINDS:
+        for n in sizes:
+            base = ['new 0 %s' % kind] + fill(kind, 0, n)
+            if kind in COPYABLE:
+                cases.append(base + ['asg 0 0', 'asg 0 0', 'copy 1 0', 'asg 1 1', 'copy 2 1', 'asg 0 2', 'del 1',
+                                     'ins 0 b 99 990' if kind in HAS_KEY and kind in NEED_VAL else ('ins 0 b 99 -' if kind in HAS_KEY else 'ins 0 b - 990'),
+                                     'asg 2 0', 'del 0'])
+                cases.append(base + ['copy 1 0', 'clear 0', 'asg 0 1', 'remat 1 0', 'asg 1 0', 'swap 0 1', 'swap 1 1'])
+            else:
+                cases.append(base + ['asg 0 0', 'copy 1 0', 'new 1 %s' % kind, 'swap 0 1', 'swap 1 1', 'clear 1', 'swap 0 1'])
+            if kind in CAN_ADDALL:
+                ps = ['f', 'b'] + ([str(n // 2), '1'] if kind == 'list' and n else [])
+                for p in ps:
+                    cases.append(base + ['addall 0 %s 0' % p, 'addall 0 %s 0' % p, 'remat 0 0' if n else 'clear 0'])
+                cases.append(base + ['copy 1 0', 'addall 0 b 1', 'addall 1 f 0', 'del 0'])
+            if kind == 'hashset':
+                cases.append(base + ['remall 0 0', 'ins 0 b 5 -', 'copy 1 0', 'remall 0 1', 'remall 1 1'])
+            if n:
+                for i in sorted({0, n - 1, n // 2}):
+                    ka = 'k0.%d' % i if kind in HAS_KEY else '-'
+                    va = 'v0.%d' % i if kind in NEED_VAL else '-'
+                    for p in ['f', 'b']:
+                        cases.append(base + ['ins 0 %s %s %s' % (p, ka, va), 'ins 0 %s %s %s' % (p, ka, va)])
+                    if kind in HAS_KEY and kind in NEED_VAL:
+                        cases.append(base + ['ins 0 b 77 v0.%d' % i, 'ins 0 b k0.%d 5' % i, 'ins 0 f k0.%d v0.%d' % (i, (i + 1) % n)])
+                    if kind not in ('array', 'poollist'):
+                        a = 'k0.%d' % i if kind in HAS_KEY else 'v0.%d' % i
+                        cases.append(base + ['remkey 0 %s' % a, 'remkey 0 %s' % (a if n > 1 else '1')])
+    return cases
+
+
+def exhaustive_cases(kind, depth):
+    """all histories of `depth` operations over a small alphabet on two variables"""
+    ka = lambda z: str(z) if kind in HAS_KEY else '-'
+    va = lambda z: str(z) if kind in NEED_VAL else '-'
+    alpha = ['ins 0 b %s %s' % (ka(1), va(5)), 'ins 0 f %s %s' % (ka(2), va(6)),
+             'ins 0 b %s %s' % ('k0.0' if kind in HAS_KEY else '-', 'v0.0' if kind in NEED_VAL else '-'),
+             'remat 0 0', 'clear 0', 'asg 0 0', 'swap 0 1']
+    if kind in COPYABLE:
+        alpha += ['asg 1 0', 'asg 0 1', 'copy 1 0', 'del 1']
+    if kind in CAN_ADDALL:
+        alpha += ['addall 0 b 0', 'addall 0 f 1']
+    if kind == 'array':
+        alpha += ['resize 0 5 v0.0', 'reserve 0 4']
+    if kind == 'hashset':
+        alpha += ['remall 0 0', 'remall 0 1']
+    if kind not in COPYABLE:
+        alpha += ['new 1 %s' % kind, 'ins 1 b %s %s' % (ka(3), va(7)), 'del 1']
+    cases = []
+    for seq in itertools.product(alpha, repeat=depth):
+        cases.append(['new 0 %s' % kind] + list(seq))
+    return cases
+
+
+# ------------------------------------------------------------------------------------------
+def kind_of_var(case, upto, x):
+    """kind of variable x when op #upto is applied (a tiny replay of new / copy / del)"""
+    kinds = {}
+    for l in case[:upto]:
+        t = l.split()
+        if t[0] == 'new' and len(t) == 3 and t[1] not in kinds:
+            kinds[t[1]] = t[2]
+        elif t[0] == 'copy' and len(t) == 3 and t[1] not in kinds and t[2] in kinds:
+            kinds[t[1]] = kinds[t[2]]
+        elif t[0] == 'del' and len(t) == 2:
+            kinds.pop(t[1], None)
+    if upto < len(case):
+        t = case[upto].split()
+        if t[0] == 'copy' and len(t) == 3:
+            return kinds.get(t[2], '?')
+    return kinds.get(x, '?')
+
+
+def tag_of(case, k, got):
+    """[kind op flavour -> effect]: one tag per defect so that vf groups reports by defect"""
+    if k >= len(case):
+        op, kind, flav = 'end', '', ''
+    else:
+        t = case[k].split()
+        op = t[0]
+        kind = kind_of_var(case, k, t[1]) if len(t) > 1 else '?'
+        flav = ''
+        if op in ('asg', 'swap', 'remall', 'copy') and len(t) == 3 and t[1] == t[2]:
+            flav = ' itself'
+        elif op == 'addall' and len(t) == 4 and t[1] == t[3]:
+            flav = ' itself ' + ('middle' if t[2] not in 'fb' else t[2])
+        elif any(a[0] in 'kv' and a[1:].split('.')[0] == t[1] for a in t[2:] if len(a) > 2 and '.' in a):
+            flav = ' own-element'
+    if got.startswith('!'):
+        eff = got[2:].split()[0]
+    elif got == '<nothing>':
+        eff = 'missing'
+    else:
+        eff = got.split(' | ')[0]
+        if eff in ('ok', 'skip', 'end'):
+            eff = 'contents'
+    return '[%s %s%s -> %s]' % (kind, op, flav, eff)
+
+
 class C04(Check):
     id = 'C04'
     comp = 'Life'
     extracted = ['coq/Life/model.mli', 'coq/Life/model.ml', 'ocaml/zconv.ml', 'ocaml/life_driver.ml']
     harness_sources = ['harness/life.cpp']
     per_case_timeout = 5
-    level_text = 'TODO'
-    level_note = 'TODO'
     technique = 'proof'
-    rule = 'TODO'
-    assumptions = []
+    level_text = (
+        'Theorems in Coq (Properties_C04.v, closed under the global context) about an executable lifetime model of Array, List, Map, '
+        'MultiMap, HashMap, HashSet, PoolList and PoolMap: a world of element instances (ids = construction serials, payload) and of '
+        'container allocations; every container function transcribed as the sequence of allocate / construct-from-value / '
+        'copy-construct-from-instance / assign / destroy / release steps the code performs, arguments being references (instance ids) that '
+        'are read where the code dereferences them, so that a read after destruction is an error of the model. For ALL histories over any '
+        'number of container variables (lifetimes_exact_once, no_leak_no_sharing): no lifetime error occurs, the live instances and '
+        'allocations are at every moment exactly those owned by exactly one container, the complete event log passes an independent '
+        'ledger (constructed once, copied-from/assigned only while live, destroyed exactly once, every allocation released exactly once) '
+        'and nothing is left after the containers are destroyed. step_refines_spec / run_refines_spec: every operation refines the pure '
+        'spec in which copies are content-equal and aliased arguments are values; copies_are_deep: after a copy or assignment (also x = x) '
+        'the target has the source\'s content and no history that does not write z changes z; alias_args_as_if_copied / alias_step / '
+        'dealias_is_copy_first: a history with self / own-element arguments has the same contents as its de-aliased history (element '
+        'reference replaced by its value, container argument by an explicit copy). The model is tied to the code by running the extracted '
+        'model, the extracted spec and an ASan/UBSan build of the working tree on the same histories with an element type that owns a heap '
+        'cell and registers every construction, copy, assignment and destruction: contents, number of live instances, the ordered event '
+        'list of every operation (instance ids, allocation serials from ASan\'s malloc hooks), capacity() and free-list lengths are compared '
+        'line by line; sanitizer reports, registry anomalies and the watchdog are observations.')
+    level_note = (
+        'Trusted: Coq kernel, the spec (LifeSpec.v), extraction + OCaml driver, the harness and its element type, the generators. The '
+        'theorems are about the model; the tie to the C++ code is differential (no proof about C++). Granularity: tree shape, bucket chains '
+        'and link fields are not modelled (C01/C02/C03/C05); reads made by comparisons are checked for liveness but not logged; reading the '
+        '`next` field of a just-destroyed item (HashSet::remove(set) on itself, clear()) is outside the model. "No memory is leaked or freed '
+        'twice" is proved for the model\'s allocations (Array storage, item blocks, hash tables); below that (the allocator) it is the '
+        'observation of ASan and of the harness ledger on the explored histories. Not modelled: Array(capacity) constructor, '
+        'append(const T*, n), sort, find, hinted Map/MultiMap insert, iterators returned by the calls.')
+    rule = (
+        'cases = histories over 3 container variables of one kind (new / del / copy-construct / assign / swap / clear / insert with value or '
+        'own-element references / remove at / remove key / add-all / remove-all / reserve / resize). Streams: corpus witnesses; random '
+        'mostly-valid histories per kind with 25% element-reference arguments and 40% self arguments; a malformed stream (dead variables, '
+        'out-of-range indices, wrong-typed references, mixed kinds); an Array boundary stream (append(a[i]), resize(m, a[i]), append(a) at '
+        'and away from capacity n|3 for every size 0..8, with/without reserve); a self-argument stream per kind at sizes around the '
+        'item-block size; exhaustive histories of depth 3 (thorough: depth 4) for every kind over a 10-15 op '
+        'alphabet. A case is non-trivial when the implementation performed at least 4 operations and constructed at least 3 element '
+        'instances; distinct = distinct op text.')
+    assumptions = ['element type: copy constructor / assignment read the source before writing, destructor releases the owned cell '
+                   '(harness type Tr); payloads are ints; hash(key) = payload',
+                   'the harness passes value arguments as temporaries constructed before and destroyed after the call (key first)']
 
     def nontrivial(self, case, obs):
-        return len(case) >= 4
+        oks = sum(1 for l in obs if l.startswith('ok'))
+        made = sum(len(re.findall(r'[VCD]\d+', l.split(' | ')[2])) for l in obs if l.count(' | ') >= 2)
+        return oks >= 4 and made >= 3
+
+    def judge(self, cases, impl_obs, spec_obs):
+        fails = []
+        for i, (s, o) in enumerate(zip(spec_obs, impl_obs)):
+            k = first_diff(s, o)
+            if k is not None:
+                exp = s[k] if k < len(s) else '<nothing>'
+                got = o[k] if k < len(o) else '<nothing>'
+                tag = tag_of(cases[i], k, got)
+                fails.append((i, k, '%-40s op#%d `%s`: spec expects `%s`, implementation gives `%s`' % (
+                    tag, k, cases[i][k] if k < len(cases[i]) else 'end', exp, got)))
+        return fails
 
     def streams(self, tier, rng):
         thorough = tier == 'thorough'
         out = []
         cases = []
         for k in KINDS:
-            for _ in range(120 if thorough else 25):
-                cases.append(gen_case(rng, k, rng.randrange(5, 40)))
-        out.append(Stream('histories', cases))
+            for _ in range(200 if thorough else 60):
+                cases.append(gen_case(rng, k, rng.randrange(5, 45)))
+        out.append(Stream('histories', cases, note='mostly valid histories per kind, element references and self arguments'))
+        cases = []
+        for k in KINDS:
+            for _ in range(80 if thorough else 20):
+                cases.append(gen_case(rng, k, rng.randrange(5, 30), alias=0.4, valid=False, mixed=rng.random() < 0.5))
+        out.append(Stream('malformed', cases, note='dead variables, bad indices, wrong-typed references, mixed kinds'))
+        out.append(Stream('boundary', boundary_cases(thorough), note='Array growth boundary with own elements'))
+        out.append(Stream('selfarg', selfarg_cases(thorough), note='self-assignment, copies of copies, container as its own argument'))
+        if thorough:
+            for k in KINDS:
+                out.append(Stream('exh4-' + k, exhaustive_cases(k, 4), exhaustive=False, note='all depth-4 histories over the alphabet'))
+        else:
+            for k in KINDS:
+                out.append(Stream('exh3-' + k, exhaustive_cases(k, 3), note='all depth-3 histories over the alphabet'))
         return out
 
 
